@@ -177,7 +177,7 @@ package tracer
 
 //@ func (*tracingResponseWriter).WriteHeader
 //@   requires wfWriter(t) && !held[t.dataTracer.mu]
-//@   modifies tracingResponseWriter.*, dataTracer.*, http.Response.*, map[string][]string, []string, bufContent,
+//@   modifies tracingResponseWriter.*, dataTracer.*, http.Response.*, map[string][]string, []string, bufContent, rwStatusN, rwStatus,
 //@            evN, evKind, evLen, evEnv, builder.*, eventOffset.*, []Event, http.Request.*, ResponseStart.*, RequestBodyData.*, ResponseBodyData.*
 //@   ensures wfWriter(t) && t.started && !held[t.dataTracer.mu] && t.finished == old(t.finished)
 //@   ensures @stable t.respWriter == old(t.respWriter) && t.req == old(t.req) && t.builder == old(t.builder)
@@ -196,7 +196,7 @@ package tracer
 //@ func (*tracingResponseWriter).Write
 //@   requires wfWriter(t) && !held[t.dataTracer.mu]
 //@   requires slicebase(data) != slicebase(t.dataTracer.prefix) //# the tracer's private prefix buffer is not the caller's buffer
-//@   modifies trS, tracingResponseWriter.*, dataTracer.*, http.Response.*, map[string][]string, []string, []byte, bufContent, Envelope.*, held, lastWriteN, lastWriteErr,
+//@   modifies trS, tracingResponseWriter.*, dataTracer.*, http.Response.*, map[string][]string, []string, []byte, bufContent, Envelope.*, held, lastWriteN, lastWriteErr, wrOut, rwStatusN, rwStatus,
 //@            evN, evKind, evLen, evEnv, builder.*, eventOffset.*, []Event, http.Request.*, ResponseStart.*, RequestBodyData.*, ResponseBodyData.*, ResponseBodyEndStream.*, ResponseBodyEnd.*
 //@   ensures @passthrough result_0 == lastWriteN[t.respWriter] && result_1 == lastWriteErr[t.respWriter]
 //@   ensures @untouched unchangedArray(data)
@@ -208,7 +208,7 @@ package tracer
 // one body-end event); later calls do nothing.
 //@ func (*tracingResponseWriter).tryFinish
 //@   requires wfWriter(t) && !held[t.dataTracer.mu]
-//@   modifies tracingResponseWriter.*, dataTracer.*, http.Response.*, map[string][]string, []string, bufContent, held,
+//@   modifies tracingResponseWriter.*, dataTracer.*, http.Response.*, map[string][]string, []string, bufContent, held, rwStatusN, rwStatus,
 //@            evN, evKind, evLen, evEnv, builder.*, eventOffset.*, []Event, http.Request.*, ResponseStart.*, RequestBodyData.*, ResponseBodyData.*, ResponseBodyEnd.*
 //@   ensures t.finished && t.started && wfWriter(t) && !held[t.dataTracer.mu]
 //@   ensures @stable t.respWriter == old(t.respWriter) && t.req == old(t.req) && t.builder == old(t.builder)
